@@ -695,6 +695,143 @@ def run_ops(spec):
 def drain_msgs(sim):
     sim.process_messages()
 
+
+# ------------------------------------------------------------------------------------------------ edges of the quantified space
+def run_edges(spec):
+    """N = 0/1/2 with a tree, particles exactly on the box centre / root-box borders / the box border / cell centres (root sizes with exact
+    geometry), many root boxes, remove + re-add at the same place, boundary 'none' with a tree, and every error path of add / remove taken once,
+    after which the history continues.  Invariant after every operation + step: refused requests leave N unchanged, no NaN coordinates,
+    every particle in exactly one leaf of a containing cell, N conserved by identity where nothing may be lost."""
+    import itertools
+    rng = random.Random(spec["seed"])
+    res = {"fail": None, "dumps": [], "upd": [], "bcases": [], "stats": {"tree_checks": 0, "shape_checks": 0, "ties": 0, "maxdepth": 0, "cells": 0,
+                                                                         "grav_checks": 0, "steps": 0, "edge_ops": 0, "refused": 0}}
+    box = L.Box(spec["rs"], *spec["n"])
+    rs = spec["rs"]
+    sim = setup(spec)
+    if sim.collision != "none":
+        sim.collision_resolve = lambda s_, c_: 0
+    nid = [0]
+    expected = set()
+    lossy = spec["boundary"] in ("open", "none")
+
+    def add(x, y, z, v=(0., 0., 0.)):
+        nid[0] += 1
+        sim.add(m=1e-3 * rs ** 3, x=x, y=y, z=z, vx=v[0], vy=v[1], vz=v[2], r=spec.get("radius", 0.0), hash=nid[0])
+        expected.add(nid[0])
+
+    def verify(where):
+        res["stats"]["edge_ops"] += 1
+        msgs = []
+        for _ in range(1000):
+            try:
+                sim.process_messages(); break
+            except RuntimeError as e:
+                msgs.append(str(e))
+        bad = [m for m in msgs if not (lossy and "outside of" in m)]
+        if bad:
+            raise Fail("edges:error", "unexpected error message after %s: %s" % (where, bad[0]))
+        ids = [sim.particles[i].hash.value for i in range(sim.N) if not math.isnan(sim.particles[i].y)]
+        for i in range(sim.N):
+            q = sim.particles[i]
+            if not math.isnan(q.y) and any(v != v for v in (q.x, q.z, q.vx, q.vy, q.vz)):
+                raise Fail("edges:nan", "after %s: particle id %d has NaN coordinates" % (where, q.hash.value))
+        if len(set(ids)) != len(ids) or not set(ids) <= expected or (not lossy and set(ids) != expected):
+            raise Fail("edges:particle_lost", "after %s: particles %s lost / %s unexpected (N=%d, boundary %s, gravity=%s collision=%s)"
+                       % (where, sorted(expected - set(ids))[:5], sorted(set(ids) - expected)[:5], sim.N, spec["boundary"], spec.get("gravity"), spec.get("collision")))
+        if lossy:
+            expected.intersection_update(ids)
+        if not any(math.isnan(sim.particles[i].y) for i in range(sim.N)):
+            check_tree(sim, box, "after " + where, res, spec)
+
+    def step(where, k=1):
+        for _ in range(k):
+            try:
+                sim.step()
+            except RuntimeError as e:
+                if not (lossy and "outside of" in str(e)):
+                    raise Fail("edges:error", "step after %s raised: %s" % (where, e))
+            res["stats"]["steps"] += 1
+        verify(where + " + step")
+
+    def refused(where, fn, exc=(RuntimeError, ValueError, AttributeError, IndexError)):
+        n0 = sim.N
+        st0 = state(sim)
+        try:
+            fn()
+            raise Fail("edges:not_refused", "%s was not refused (N %d -> %d)" % (where, n0, sim.N))
+        except exc:
+            pass
+        res["stats"]["refused"] += 1
+        if sim.N != n0 or [s[:4] for s in state(sim)] != [s[:4] for s in st0]:
+            raise Fail("edges:refused_request_changed_state", "%s was refused but changed the simulation (N %d -> %d)" % (where, n0, sim.N))
+        step(where)
+    try:
+        h = [box.box[a] / 2. for a in range(3)]
+        vel = (0.3 * rs * spec["vel"], -0.2 * rs * spec["vel"], 0.1 * rs * spec["vel"])
+        # ---- N = 0, 1, 2
+        step("N=0"); step("N=0 again")
+        add(0.0, 0.0, 0.0); step("N=1 at the box centre", 2)
+        add(-0.25 * rs, 0.125 * rs, 0.0, vel); step("N=2", 2)
+        sim.remove(index=0, keep_sorted=False); expected.discard(sim.particles[0].hash.value if False else 1); step("remove -> N=1", 2)
+        sim.remove(index=0, keep_sorted=False); expected.clear(); step("remove the last particle -> N=0", 2)
+        if sim.N != 0:
+            raise Fail("edges:particle_lost", "N=%d after removing every particle" % sim.N)
+        # ---- lattice of special coordinates: box centre, lower box border, root-box borders, cell centres (half-open on the upper side: the
+        #      periodic images of the lower border are the same points)
+        coords = []
+        for a in range(3):
+            vals = {0.0, -h[a]}
+            for i in range(1, spec["n"][a]):
+                vals.add(-h[a] + i * rs)
+            vals.add(-h[a] + rs / 2.); vals.add(-h[a] + rs / 4.); vals.add(-h[a] + 3. * rs / 8.)
+            if spec.get("upper_border"):
+                vals.add(h[a])
+            coords.append(sorted(v for v in vals if -h[a] <= v <= h[a]))
+        pts = list(itertools.product(*coords))
+        rng.shuffle(pts)
+        for pnt in pts[:spec["npts"]]:
+            add(pnt[0], pnt[1], pnt[2], vel if spec.get("moving") else (0., 0., 0.))
+        verify("lattice added")
+        step("lattice", 3)
+        # ---- remove the only particle of a leaf and re-add a particle at the same place (before the tree is updated)
+        if sim.N >= 3:
+            i = rng.randrange(sim.N); q = sim.particles[i]; x, y, z, hq = q.x, q.y, q.z, q.hash.value
+            sim.remove(index=i, keep_sorted=False); expected.discard(hq)
+            add(x, y, z)
+            step("remove + re-add at the same place", 2)
+        # ---- every error path of add / remove once, then continue
+        if sim.N >= 2:
+            q0 = sim.particles[0]
+            refused("add with the coordinates of an existing particle", lambda: sim.add(m=1e-9, x=q0.x, y=q0.y, z=q0.z, hash=777001))
+            if spec["boundary"] != "none" or True:
+                refused("add outside the box", lambda: sim.add(m=1e-9, x=0.0, y=3.7 * box.box[1], z=0.0, hash=777002))
+            refused("add with a NaN coordinate", lambda: sim.add(m=1e-9, x=float("nan"), hash=777003))
+            refused("remove index N", lambda: sim.remove(index=sim.N, keep_sorted=False))
+            refused("remove index -1", lambda: sim.remove(index=-1, keep_sorted=False))
+            refused("remove keep_sorted=True with a tree", lambda: sim.remove(index=0, keep_sorted=True))
+            refused("remove an unknown hash", lambda: sim.remove(hash=424242))
+            # the same particle removed twice before the tree update: one particle goes
+            hq = sim.particles[1].hash.value
+            sim.remove(index=1, keep_sorted=False)
+            try:
+                sim.remove(index=1, keep_sorted=False)
+            except RuntimeError:
+                pass
+            expected.discard(hq)
+            step("the same index removed twice", 2)
+        # ---- remove everything at once, re-populate
+        clib.reb_simulation_remove_all_particles(ctypes.byref(sim)); expected.clear()
+        verify("remove_all_particles")
+        step("remove_all_particles")
+        add(0.125 * rs, -0.25 * rs, 0.0625 * rs, vel); add(-h[0], 0.0, 0.0, vel); add(0.0, -h[1], 0.25 * rs)
+        step("re-populated", 3)
+    except Fail as f:
+        res["fail"] = {"key": f.key, "what": f.what, "detail": f.detail, "step": res["stats"]["steps"]}
+    except RuntimeError as e:
+        res["fail"] = {"key": "edges:error", "what": "library raised: %s" % e}
+    return res
+
 # ------------------------------------------------------------------------------------------------ corner cases (explicit coordinates)
 def run_corner(spec):
     res = {"fail": None, "dumps": [], "bcases": [], "stats": {"steps": 0, "tree_checks": 0, "shape_checks": 0, "ties": 0, "maxdepth": 0, "cells": 0, "grav_checks": 0}}
@@ -713,6 +850,30 @@ def run_corner(spec):
                     sim.add(m=op[1], x=op[2], y=op[3], z=op[4]); n_expected += 1
                 elif op[0] == "orbit":
                     sim.add(m=op[1], a=op[2], f=op[3], r=op[4]); n_expected += 1
+                elif op[0] == "coincide":        # particle op[2] is moved exactly onto particle op[1] (direct edit)
+                    a_, b_ = sim.particles[op[1]], sim.particles[op[2]]
+                    b_.x = a_.x; b_.y = a_.y; b_.z = a_.z
+                elif op[0] == "update_capture":  # reb_simulation_update_tree with a pre/post record for the Coq update models
+                    pre = snapshot_pre(sim)
+                    clib.reb_simulation_update_tree(ctypes.byref(sim))
+                    msgs = []
+                    for _ in range(100):
+                        try:
+                            sim.process_messages(); break
+                        except RuntimeError as e:
+                            msgs.append(str(e))
+                    post_f = L.dump_tree(sim)
+                    pre["post_forest"] = strip(post_f)
+                    pre["post_pos"] = [[hx(sim.particles[i].x), hx(sim.particles[i].y), hx(sim.particles[i].z)] for i in range(sim.N)]
+                    pre["rs"] = hx(spec["rs"]); pre["n"] = spec["n"]; pre["boxed"] = spec["boundary"] != "none"
+                    res.setdefault("upd", []).append(pre)
+                    n_expected = sim.N if op[1:] == ["expect_drop"] and sim.N == n_expected - 1 and any("same coordinates" in m for m in msgs) else n_expected
+                    if sim.N != n_expected:
+                        raise Fail(spec["key"], "%s: update with two coincident particles: N=%d, messages %s" % (spec["what"], sim.N, msgs[:2]))
+                    part = [(p.x, p.y, p.z, p.m) for p in (sim.particles[i] for i in range(sim.N))]
+                    errs = L.wfb_py(box, part, sim.N, post_f)
+                    if errs:
+                        raise Fail(spec["key"], "%s: tree after the update: %s" % (spec["what"], errs[0]))
                 elif op[0] == "move_to_hel":
                     sim.move_to_hel()
                 elif op[0] == "move_to_com":
@@ -762,5 +923,5 @@ def run_corner(spec):
 
 if __name__ == "__main__":
     spec = json.load(sys.stdin)
-    r = {"tree": run_tree, "boundary": run_boundary, "corner": run_corner, "restore": run_restore, "ops": run_ops}[spec["kind"]](spec)
+    r = {"tree": run_tree, "boundary": run_boundary, "corner": run_corner, "restore": run_restore, "ops": run_ops, "edges": run_edges}[spec["kind"]](spec)
     sys.stdout.write("\nC15RESULT " + json.dumps(r) + "\n")
